@@ -46,6 +46,11 @@ func readTlvStream(
 				break
 			}
 
+			if uint64(len) > uint64(cap(recvBuf)) {
+				// Can never fit in the receive buffer (and int(len) may be negative)
+				return errors.New("received TLV block larger than the receive buffer")
+			}
+
 			tlvSize := typ.EncodingLength() + len.EncodingLength() + int(len)
 
 			if recvOff-tlvOff >= tlvSize {
